@@ -187,7 +187,10 @@ func (w *World) Dial(info *simnet.DialInfo) (simnet.DialOutcome, func(*simnet.En
 	w.mu.Lock()
 	w.Conns = append(w.Conns, cr)
 	w.mu.Unlock()
-	h := w.Hosts[strings.ToLower(info.Host)]
+	h := w.Hosts[strings.ToLower(info.Host)+":"+info.Port]
+	if h == nil {
+		h = w.Hosts[strings.ToLower(info.Host)]
+	}
 	if h == nil {
 		cr.Outcome = "no-such-host"
 		return simnet.DialNoSuchHost, nil
@@ -458,6 +461,9 @@ func (w *World) finish() {
 	recs := append([]simtls.DialRecord(nil), w.tlsRecs...)
 	w.mu.Unlock()
 	for _, rec := range recs {
+		if rec.SessionCache || rec.ClientCerts {
+			w.r.Violate("C04", "M-req", "tls-client-identifying-state", fmt.Sprintf("TLS client for %s carries state that identifies the client to the server across connections (session ticket cache: %v, client certificate: %v)", rec.Addr, rec.SessionCache, rec.ClientCerts))
+		}
 		if rec.InsecureSkipVerify || rec.CustomVerify {
 			w.r.Violate("C04", "M-req", "tls-verification-disabled", fmt.Sprintf("TLS client for %s created with verification weakened: %+v", rec.Addr, rec))
 		}
